@@ -66,7 +66,7 @@ def run_check(prop, tree, tier='quick', runs=None, seed=None):
             'wall': round(time.time() - t0, 1), 'tail': r.stdout[-1200:] if r.returncode == 2 else ''}
 
 
-def vet(src, checks, keep=None, baseline=True, tier='quick', runs=None, seed=None):
+def vet(src, checks, keep=None, baseline=True, tier='quick', runs=None, seed=None, demo=True):
     meta = json.load(open(os.path.join(src, 'meta.json')))
     prop = meta['property']
     tag = (keep or meta.get('id') or os.path.basename(src.rstrip('/'))).replace('/', '_')
@@ -95,15 +95,16 @@ def vet(src, checks, keep=None, baseline=True, tier='quick', runs=None, seed=Non
             rep['steps']['baseline'] = line[0] if line else b.stdout[-300:]
             ok &= b.returncode == 0
             print('baseline on mutant tree: %s (exit %d)' % (rep['steps']['baseline'], b.returncode))
-        d1 = sh([PY, os.path.join(src, 'demo.py'), tree], timeout=900, cwd=src)
-        d0 = sh([PY, os.path.join(src, 'demo.py'), clean], timeout=900, cwd=src)
-        rep['steps']['demo_mutant_exit'] = d1.returncode
-        rep['steps']['demo_clean_exit'] = d0.returncode
-        print('demo.py: mutant tree exit %d, clean /repo exit %d' % (d1.returncode, d0.returncode))
-        if d1.returncode != 1 or d0.returncode != 0:
-            ok = False
-            print('  mutant stdout tail: ' + d1.stdout[-400:] + d1.stderr[-300:])
-            print('  clean  stdout tail: ' + d0.stdout[-400:] + d0.stderr[-300:])
+        if demo:
+            d1 = sh([PY, os.path.join(src, 'demo.py'), tree], timeout=900, cwd=src)
+            d0 = sh([PY, os.path.join(src, 'demo.py'), clean], timeout=900, cwd=src)
+            rep['steps']['demo_mutant_exit'] = d1.returncode
+            rep['steps']['demo_clean_exit'] = d0.returncode
+            print('demo.py: mutant tree exit %d, clean /repo exit %d' % (d1.returncode, d0.returncode))
+            if d1.returncode != 1 or d0.returncode != 0:
+                ok = False
+                print('  mutant stdout tail: ' + d1.stdout[-400:] + d1.stderr[-300:])
+                print('  clean  stdout tail: ' + d0.stdout[-400:] + d0.stderr[-300:])
         rep['checks'] = {}
         for c in checks:
             res = run_check(c, tree, tier=tier, runs=runs, seed=seed)
@@ -169,7 +170,7 @@ def main():
                 continue
             meta = json.load(open(os.path.join(d, 'meta.json')))
             cl = checks.split(',') if checks else meta.get('expected_checks') or [meta['property']]
-            rep, ok = vet(d, cl, keep=None, baseline=False, tier=tier, runs=int(runs) if runs else None, seed=seed)
+            rep, ok = vet(d, cl, keep=None, baseline=False, tier=tier, runs=int(runs) if runs else None, seed=seed, demo='--with-demo' in sys.argv)
             det = {c: v['exit'] for c, v in rep.get('checks', {}).items()}
             hits = {c: v['summary'] for c, v in rep.get('checks', {}).items()}
             rows.append((name, meta['property'], det, hits))
